@@ -13,8 +13,9 @@ Modes (arm(...)):
   count          record every mutation event (with the operation index set through set_op) - nothing is injected
   exc            raise InjectedFault before event k (once), the program continues to unwind normally
   exit           os._exit(137) before event k: process death, unflushed Python buffers are lost
-  delay          sleep `frac` seconds before every mutation event (no fault): widens the windows between the file
-                 operations of a writer so that concurrent readers really arrive inside them
+  delay          sleep `frac` seconds before every mutation event (no fault), and slow[1] seconds before the events
+                 on paths ending in one of slow[0]: widens the windows between the file operations of a writer
+                 so that concurrent readers really arrive inside them
   torn           event k-1 must be an open that truncates or appends (a *tearable* open): before event k executes
                  (or at end_of_workload() if k-1 was the last event) the file is cut back to
                  base + frac*(size-base) bytes, base = 0 for 'w' and the size at open time for 'a', then
@@ -61,6 +62,7 @@ class _State:
     events = None
     pending_tear = None  # (path, base) of the tearable open that was event k-1
     pfd = None
+    slow = None  # delay mode: (path suffixes, seconds) - a long sleep before the events on these paths
 
 
 _S = _State()
@@ -137,7 +139,7 @@ def _hook(event, args):
                 except OSError:
                     tear = 0
         if _S.mode == "delay":  # schedule perturbation for the concurrency check: stretch the writer's windows
-            time.sleep(_S.frac)
+            time.sleep(_S.slow[1] if _S.slow and p.endswith(_S.slow[0]) and not (event == "open" and flags == 0) else _S.frac)
             return
         if _S.mode == "count":
             _S.events.append({"n": n, "ev": event, "path": p[len(_S.root) + 1:], "flags": flags, "op": _S.op,
@@ -172,8 +174,9 @@ def install():
         _S.installed = True
 
 
-def arm(root, mode="count", k=0, frac=0.0, progress_fd=None):
+def arm(root, mode="count", k=0, frac=0.0, progress_fd=None, slow=None):
     install()
+    _S.slow = slow
     _S.root = os.path.abspath(str(root)).rstrip("/")
     _S.mode, _S.k, _S.frac = mode, k, frac
     _S.n, _S.op, _S.fired, _S.events, _S.pending_tear = 0, -1, False, [], None
